@@ -133,7 +133,10 @@ def units(w):
             if mk is None:
                 continue
             f = w.func(f"values.py::{cls}.{meth}")
-            U.append(rel_unit(f"values.py::{cls}.{meth}", "receiver", lambda it, n=n, mk=mk: [mk(it, n)], lambda it, a, f=f: it.call_func(f, a, {}), n))
+            u = rel_unit(f"values.py::{cls}.{meth}", "receiver", lambda it, n=n, mk=mk: [mk(it, n)], lambda it, a, f=f: it.call_func(f, a, {}), n)
+            # rendering 3 elements forks over the bracket padding of symbolic element texts (minutes of string solving): thorough tier
+            u.thorough_only = (meth == "__repr__" and n == 3)
+            U.append(u)
         # spread in a list literal and in a call
         def b_listspread(it, n=n):
             node = Obj(nodes["NodeList"], {"items": PList([Obj(nodes["NodeSpread"], {"expression": S.node("s", mkset(it, n)), "pos": None})]), "pos": None})
